@@ -377,7 +377,39 @@ for kind, name, obj in data:
     elif {fresh: 1}.get(obj) != 1 or {obj: 1}.get(fresh) != 1 or \
             {name: 1}.get(obj) != 1 or obj not in {fresh}:
         bad.append([name, 'dict / set lookup misses after unpickling'])
-print('@@' + json.dumps({'n': len(data), 'bad': bad[:5]}))
+# identity does not depend on WHICH COPY of the class an object was made from:
+# a user's subclass, and the module reloaded in a long-lived session
+import importlib
+import pgradd.GroupAdd.Group as GM
+names = [name for kind, name, obj in data if kind == 'g'][:25]
+olds = [(name, Group.parse(None, name), Group.parse(None, name))
+        for name in names]
+
+
+class UserGroup(Group):
+    pass
+
+
+def same(a, b, what, name):
+    if not (a == b) or not (b == a) or (a != b) or (b != a):
+        bad.append([name, what + ': equal groups compare unequal'])
+    elif hash(a) != hash(b):
+        bad.append([name, what + ': equal groups hash differently'])
+    elif len({a: 1, b: 2}) != 1 or a not in {b} or b not in {a}:
+        bad.append([name, what + ': equal groups are distinct dict keys'])
+
+
+n_code = 0
+for name, g, g2 in olds:
+    same(g, UserGroup.parse(None, name), 'subclass of Group', name)
+    n_code += 1
+importlib.reload(GM)
+for name, g, g2 in olds:
+    same(g, g2, 'two groups made before a reload of the module', name)
+    same(g, GM.Group.parse(None, name),
+         'group made before / after a reload of the module', name)
+    n_code += 2
+print('@@' + json.dumps({'n': len(data), 'bad': bad[:5], 'n_code': n_code}))
 '''
 
 
@@ -423,12 +455,18 @@ def check_other_process(ctx):
         return
     rep = json.loads(line[0][2:])
     if rep['bad']:
-        ctx.violation('group identity does not survive pickling into another '
-                      'interpreter: %s' % rep['bad'][0][1],
+        why = rep['bad'][0][1]
+        ctx.violation(('group identity depends on which copy of the class '
+                       'made the object: %s' if ('reload' in why or
+                                                 'subclass' in why) else
+                       'group identity does not survive pickling into another '
+                       'interpreter: %s') % why,
                       {'what': 'cross-process pickle'}, {'examples':
                                                          rep['bad']})
         return
     ctx.count('groups_checked_in_another_interpreter', rep['n'])
+    ctx.count('identities_checked_across_subclass_and_module_reload',
+              rep.get('n_code', 0))
 
 
 def check_threads(ctx, key=None, rounds=3):
